@@ -159,6 +159,15 @@ def entity_accessors(fn, nid, skip_params=False):
                 nm = n['q'].rsplit('::', 1)[-1]
                 if nm not in NOT_ATTRIBUTES and not nm.startswith('operator'):
                     out.add(nm)
+            elif n.get('k') == 'call' and n.get('u') and depth < 2 and '/osmium/io/' in fn.file and not n.get('q', '').startswith(('std::', 'protozero::')):
+                # a small helper of the writer that is handed an entity and returns one of its attributes (`lat_of(node)`)
+                if any(is_entity_class((fn.sn(a) or {}).get('t', '').replace('const ', '').rstrip('&* ').strip()) for a in n.get('args', [])):
+                    for g in fn.fb.by_usr.get(n['u'], []):
+                        if g.has_cfg and '/osmium/io/' in g.file and g is not fn:
+                            for r in g.all_nodes():
+                                if r.get('k') == 'return' and 'sub' in r:
+                                    out |= entity_accessors(g, r['sub'])
+                            break
             elif n.get('k') == 'var' and n.get('vk', 'local') == 'local' and depth < 3 and n.get('d') in local_inits(fn):
                 work.append((local_inits(fn)[n['d']], depth + 1))   # a local that only names another expression
     return out
@@ -394,6 +403,19 @@ def xml_writer_fields(fb, classes):
                             # name handed on from this function's own parameter: resolved at our call sites
                             continue
                         for t in texts:
+                            toks = [m for m in _XML_TOKEN.finditer(t)]
+                            if toks:
+                                # the helper is handed a whole fragment (` created_at="`): the name is inside it
+                                names = [m.group(2) for m in toks if m.group(2)]
+                                for m in toks:
+                                    if m.group(1):
+                                        ol.append((e.node, m.start(), m.group(1)))
+                                        fields.append(WField(m.group(1), f, e.node, kind='element'))
+                                if not names:
+                                    continue
+                                t = names[-1]
+                            elif not re.match(r'^[A-Za-z_][\w.:-]*$', t):
+                                continue   # not a name at all (separator, quote ...)
                             w = WField(t, f, e.node, getters=set(acc))
                             w.order = 0
                             for vp in vps:
@@ -552,9 +574,11 @@ def accepted_values(fb, rn):
     handed to): the only values it accepts / distinguishes.  Empty set = free-form value."""
     fn = rn.fn
     out = set()
-    if len(fn.params) < 2:
-        return out
-    dv = fn.params[1]['d']
+    dv = getattr(rn, 'value_d', None)
+    if dv is None:
+        if len(fn.params) < 2:
+            return out
+        dv = fn.params[1]['d']
     for n in fn.all_nodes():
         if n.get('k') != 'call' or n['id'] not in fn.positions():
             continue
@@ -578,29 +602,41 @@ def accepted_values(fb, rn):
     return out
 
 
-def name_dispatch(fb, fn, depth=0, seen=None):
-    """[RName] for a function / lambda whose first parameter is the attribute name (const char*): strcmp and char-wise tests on
-    it, and, through calls that pass the name on as first argument, the callee's tests."""
+def name_dispatch(fb, fn, depth=0, seen=None, name_idx=0, value_idx=1):
+    """[RName] for a function / lambda one of whose parameters (name_idx) is the attribute name (const char*): strcmp and char-wise
+    tests on it, and, through calls that pass the name on (at any argument position), the callee's tests."""
     out = []
     seen = set() if seen is None else seen
-    if id(fn) in seen or depth > 4 or not fn.params:
+    if (id(fn), name_idx) in seen or depth > 4 or name_idx >= len(fn.params):
         return out
-    seen.add(id(fn))
-    d0 = fn.params[0]['d']
+    seen.add((id(fn), name_idx))
+    d0 = fn.params[name_idx]['d']
+    dv = fn.params[value_idx]['d'] if value_idx is not None and value_idx < len(fn.params) else None
     for n in fn.all_nodes():
         lit = _strcmp_lit(fn, n, d0)
         if lit is not None:
-            out.append(RName(lit, fn, n['id'], setters_under(fn, n['id'], False)))
+            rn = RName(lit, fn, n['id'], setters_under(fn, n['id'], False))
+            rn.value_d = dv
+            out.append(rn)
     for (s, cond) in _char_name_conditions(fn, d0):
-        out.append(RName(s, fn, fn.strip(cond), set()))
+        rn = RName(s, fn, fn.strip(cond), set())
+        rn.value_d = dv
+        out.append(rn)
     for c in fn.all_nodes():
         if c.get('k') == 'call' and c.get('u') and c.get('args'):
-            r = fn.root_var(c['args'][0])
-            if r is not None and r[0] == 'var' and r[1] == d0:
-                for g in fb.by_usr.get(c['u'], []):
-                    if g.has_cfg and g.params and g.params[0]['tC'] in ('const char *', 'const char *&&', 'const char *&', 'const char *const &'):
-                        out.extend(name_dispatch(fb, g, depth + 1, seen))
-                        break
+            ni = vi = None
+            for i, a in enumerate(c['args']):
+                r = fn.root_var(a)
+                if r is not None and r[0] == 'var' and r[1] == d0:
+                    ni = i
+                elif r is not None and r[0] == 'var' and dv is not None and r[1] == dv:
+                    vi = i
+            if ni is None:
+                continue
+            for g in fb.by_usr.get(c['u'], []):
+                if g.has_cfg and ni < len(g.params) and g.params[ni]['tC'].replace('&&', '').replace('&', '').replace('const', '').replace(' ', '') in ('char*',):
+                    out.extend(name_dispatch(fb, g, depth + 1, seen, ni, vi))
+                    break
     return out
 
 
@@ -796,6 +832,19 @@ def opl_reader_vocab(fb, ns='osmium::io::detail::'):
                             setters.add(nm)
                             if n.get('recv') is not None:
                                 setters |= entity_accessors(F, n['recv'])
+                    elif n.get('k') == 'call' and lo <= n.get('o', -1) < hi and n.get('u') and not n.get('q', '').startswith(ns + 'opl_parse_') \
+                            and any(is_entity_class((F.sn(a) or {}).get('t', '').replace('const ', '').rstrip('&* ').strip()) for a in n.get('args', [])):
+                        # the body of the case moved into a helper that is handed the builder
+                        for g in fb.by_usr.get(n['u'], []):
+                            if g.has_cfg and g.file == F.file:
+                                for m in g.all_nodes():
+                                    if m.get('k') == 'call' and is_entity_class(m.get('rcls')):
+                                        nm = m['q'].rsplit('::', 1)[-1]
+                                        if nm.startswith(('set_', 'add_')):
+                                            setters.add(nm)
+                                            if m.get('recv') is not None:
+                                                setters |= entity_accessors(g, m['recv'])
+                                break
                 cases[chr(v & 0xff)] = OplCase(chr(v & 0xff), F, lab['case'], setters)
         # the same dispatch written as an if-chain: `if (c == 'v') { ... } else if (c == 'd') ...` on a local character
         for n in F.all_nodes():
